@@ -2325,9 +2325,11 @@ impl<'i, R: XmlRead<'i>, E: EntityResolver> XmlReader<'i, R, E> {
                     // FIXME: Actually, we should trim after decoding text, but now we trim before
                     let trailing = e.len() - trim_xml_end(&e).len();
                     let blank = trailing == e.len();
-                    result
-                        .to_mut()
-                        .push_str(&e.unescape_with(|entity| self.entity_resolver.resolve(entity))?);
+                    let text = e.unescape_with(|entity| self.entity_resolver.resolve(entity))?;
+                    // In an ASCII-incompatible encoding the decoded text can end with
+                    // fewer blanks than the raw bytes; never cut more than is there
+                    let trailing = trailing.min(text.len() - trim_xml_end(text.as_bytes()).len());
+                    result.to_mut().push_str(&text);
                     if !blank {
                         keep = result.len() - trailing;
                     }
@@ -2366,6 +2368,9 @@ impl<'i, R: XmlRead<'i>, E: EntityResolver> XmlReader<'i, R, E> {
                     }
                     let trailing = e.len() - trim_xml_end(&e).len();
                     let text = e.unescape_with(|entity| self.entity_resolver.resolve(entity))?;
+                    // In an ASCII-incompatible encoding the decoded text can end with
+                    // fewer blanks than the raw bytes; never cut more than is there
+                    let trailing = trailing.min(text.len() - trim_xml_end(text.as_bytes()).len());
                     let keep = text.len() - trailing;
                     self.drain_text(text, keep)
                 }
